@@ -6,6 +6,7 @@ import SpoxModel.Lemmas.BuildAlgLeak
 import SpoxModel.Lemmas.BuildAlgScope
 import SpoxModel.Lemmas.BuildAlgOrder
 import SpoxModel.Lemmas.BuildAlgPlaced
+import SpoxModel.Lemmas.BuildAlgLexical
 import SpoxModel.Lemmas.BridgeWalk
 import SpoxModel.Lemmas.BridgeFacts
 import SpoxModel.Props.C01
@@ -531,6 +532,96 @@ theorem build_valid_of_readers (p : BuildAlg.Prog) (hwf : WF p) (b : Built) (tr 
       (Bridge.toProg p b.argsOf).main [] = true :=
   build_valid p hwf b tr h (leakFree_of_readers p hwf b tr h R)
 
+/-! ### `LeakFree` derived from a condition on the main graph only (round 7) -/
+
+/-- What the front end guarantees (closures only capture values of enclosing callbacks), stated on
+    the main graph alone — no scope tree, no `scope_of`: every argument a discovered graph reads belongs
+    to a discovered graph, and the main graph reads (through input edges) no value that depends *freely*
+    on an argument of a body — freely: along input and subgraph edges that do not enter the body binding
+    it (`Bridge.adjCut`). -/
+structure MainClean (p : Prog) (b : Built) : Prop where
+  owned : ∀ a, p.isArg a = true →
+    (∃ G, G ∈ b.graphTopo ∧ Reach p.adjIn (.src G) (.node a)) → ∃ s, a ∈ lookupL b.argsOf s
+  clean : ∀ s a, s ≠ 0 → a ∈ lookupL b.argsOf s → ∀ v,
+    Reach (Bridge.adjCut p s) v (.node a) → ¬ Reach p.adjIn (.src 0) v
+
+/-- **readersEnclosed_of_mainClean**: every leak — to an outer scope or to a sibling — surfaces in the
+    main graph: if main reads nothing that freely depends on a body's argument, every discovered graph
+    reading such a value is enclosed, in the final scope tree, by the body owning the argument.
+    (Induction along `graph_topo`: the owner of a reading graph depends freely on the argument too and
+    is read only by graphs processed earlier.) -/
+theorem readersEnclosed_of_mainClean (p : Prog) (hwf : WF p) (b : Built) (tr : List Ev)
+    (h : build p = .ok (b, tr)) (M : MainClean p b) : ReadersEnclosed p b := by
+  obtain ⟨st, hdi, _, htopo, hown, hso, TF⟩ := discover_final p hwf b tr h
+  obtain ⟨_, _, _, _, hbtopo, _⟩ := build_inv p hwf b tr h
+  have hinv := scope_fold p hwf st.owner st.topo.reverse TF (lcaFuel st.topo.reverse)
+    (by simp only [lcaFuel]; omega) st.topo.reverse [] [] (by simp) (sinv_empty p st.owner)
+  rw [← hso, ← hown, ← htopo] at hinv
+  rw [← hown, ← htopo] at TF
+  intro a harg hex
+  obtain ⟨s, hs⟩ := M.owned a harg hex
+  refine ⟨s, hs, ?_⟩
+  intro G hG hGa
+  obtain ⟨pre, suf, hsplit⟩ := List.append_of_mem hG
+  exact Bridge.freeDep_enclosed p hwf b st hdi htopo hown TF hinv hbtopo s a
+    (fun hs0 => M.clean s a hs0 hs) pre.length pre G suf rfl hsplit (.node a) hGa (Reach.refl _)
+
+/-- **build_valid_of_mainClean**: `build_valid` for front-end programs — no hypothesis about scopes or
+    the scope tree: a program in creation order whose build succeeds and whose main graph reads nothing
+    that freely depends on a body's argument is emitted as a model C01's `validG` accepts. -/
+theorem build_valid_of_mainClean (p : BuildAlg.Prog) (hwf : WF p) (b : Built) (tr : List Ev)
+    (h : build p = .ok (b, tr)) (M : MainClean p b) :
+    Prog.validG (Bridge.toProg p b.argsOf).nodes (Bridge.toEGraph p b)
+      (Bridge.toProg p b.argsOf).main [] = true :=
+  build_valid_of_readers p hwf b tr h (readersEnclosed_of_mainClean p hwf b tr h M)
+
+theorem rank_le_of_reach (p : Prog) (hwf : WF p) {u v : V} (h : Reach p.adjIn u v) :
+    rankV p v ≤ rankV p u := by
+  induction h with
+  | refl => exact Nat.le_refl _
+  | step _ hw ih => exact Nat.le_trans (Nat.le_of_lt (rank_adjIn p hwf _ _ hw)) ih
+
+/-- the executable check (what the driver evaluates on every built case) implies `MainClean` -/
+theorem mainClean_of_check (p : Prog) (hwf : WF p) (b : Built)
+    (h : Bridge.mainCleanB p b = true) : MainClean p b := by
+  simp only [Bridge.mainCleanB, Bool.and_eq_true, List.all_eq_true] at h
+  obtain ⟨h1, h2⟩ := h
+  constructor
+  · intro a harg ⟨G, hG, hr⟩
+    have hm : V.node a ∈ p.postIn G :=
+      (mem_visit_iff (rankV p) (rank_adjIn p hwf) p.fuel _ _ (rank_src_lt_fuel p hwf G)).mpr hr
+    have := h1 G hG (.node a) hm
+    simp only [harg, Bool.not_true, Bool.false_or, List.any_eq_true, List.contains_iff_mem] at this
+    obtain ⟨s, _, hs⟩ := this
+    exact ⟨s, hs⟩
+  · intro s a hs0 ha v hdep hmain
+    obtain ⟨e, he, hes, hae⟩ := lookupL_mem ha
+    have := h2 e he
+    simp only [Bool.or_eq_true, beq_iff_eq, List.all_eq_true] at this
+    rcases this with h0 | hall
+    · exact hs0 (hes ▸ h0)
+    · have hv : v ∈ p.postIn 0 :=
+        (mem_visit_iff (rankV p) (rank_adjIn p hwf) p.fuel _ _ (rank_src_lt_fuel p hwf 0)).mpr hmain
+      have hno := hall a hae v hv
+      have hrank : ∀ x, ∀ w ∈ Bridge.adjCut p e.1 x, rankV p w < rankV p x := by
+        intro x w hw
+        exact rank_adjFull p hwf x w (List.mem_filter.mp hw).1
+      have hf : rankV p v < p.fuel :=
+        Nat.lt_of_le_of_lt (rank_le_of_reach p hwf hmain) (rank_src_lt_fuel p hwf 0)
+      have hin : V.node a ∈ visit (Bridge.adjCut p e.1) p.fuel v [] :=
+        (mem_visit_iff (rankV p) hrank p.fuel v _ hf).mpr (hes ▸ hdep)
+      have hc : (visit (Bridge.adjCut p e.1) p.fuel v []).contains (V.node a) = true :=
+        List.contains_iff_mem.mpr hin
+      rw [hc] at hno
+      cases hno
+
+/-- `build_valid_of_mainClean` with every hypothesis executable -/
+theorem build_valid_mainClean_checked (p : BuildAlg.Prog) (hwf : p.WFb = true) (b : Built)
+    (tr : List Ev) (h : build p = .ok (b, tr)) (hm : Bridge.mainCleanB p b = true) :
+    Prog.validG (Bridge.toProg p b.argsOf).nodes (Bridge.toEGraph p b)
+      (Bridge.toProg p b.argsOf).main [] = true :=
+  build_valid_of_mainClean p (wf_of_wfb p hwf) b tr h (mainClean_of_check p (wf_of_wfb p hwf) b hm)
+
 /-- `build_valid` with every hypothesis executable (what the driver evaluates on each case). -/
 theorem build_valid_checked (p : BuildAlg.Prog) (hwf : p.WFb = true) (b : Built) (tr : List Ev)
     (h : build p = .ok (b, tr)) (hlf : Bridge.leakFreeB p b = true) :
@@ -548,6 +639,17 @@ theorem build_correct {Val : Type} [Inhabited Val] (S : Prog.Sem Val) (p : Build
       some (Prog.denoteG S (Bridge.toProg p b.argsOf).nodes bind
         (Bridge.toProg p b.argsOf).main vals) :=
   C01.valid_sound S _ (Bridge.wf_toProg p hwf b.argsOf) _ _ (build_valid p hwf b tr h LF) bind vals
+
+/-- **build_correct_of_mainClean**: … hence (C01 `valid_sound`) evaluating the built emission gives the
+    program's denotation. -/
+theorem build_correct_of_mainClean {Val : Type} [Inhabited Val] (S : Prog.Sem Val)
+    (p : BuildAlg.Prog) (hwf : WF p) (b : Built) (tr : List Ev) (h : build p = .ok (b, tr))
+    (M : MainClean p b) (bind : Nat → Val) (vals : List Val) :
+    Prog.evalG S (Bridge.toProg p b.argsOf).nodes (Bridge.toEGraph p b) (fun _ => none) vals =
+      some (Prog.denoteG S (Bridge.toProg p b.argsOf).nodes bind
+        (Bridge.toProg p b.argsOf).main vals) :=
+  build_correct S p hwf b tr h
+    (leakFree_of_readers p hwf b tr h (readersEnclosed_of_mainClean p hwf b tr h M)) bind vals
 
 /-! ### the Builder does not look at what kind of operator a node is
 
@@ -666,6 +768,13 @@ example : (publicBuild exNested [1, 0] true).toOption.map (·.2.2) = some [1, 0]
 example : (publicBuild exLoop [1] true).toOption.map (·.2.2) = none := by decide
 example : (publicBuild exLoop [1, 0] false).toOption.map (·.2.2) = some [1, 0] := by decide
 
+/-- `MainClean` is satisfiable and discriminates: the Loop program is main-clean (its build is then
+    accepted by `validG`: `build_valid_mainClean_checked`), the sibling leak is not -/
+example : ∃ b tr, build exLoop = .ok (b, tr) ∧ Bridge.mainCleanB exLoop b = true := by
+  refine ⟨_, _, rfl, ?_⟩; decide
+example : ∃ b tr, build exNested = .ok (b, tr) ∧ Bridge.mainCleanB exNested b = true := by
+  refine ⟨_, _, rfl, ?_⟩; decide
+
 /-- sibling leak (design probe p4): the second Loop body uses the first body's argument 4. The
     Builder itself does not object (`build` succeeds, both bodies hang off the main graph); it is the
     structural rule of the final checker that rejects the emission. -/
@@ -677,6 +786,9 @@ def exSiblingLeak : Prog :=
     graphs := [⟨some [0, 1], [11]⟩, ⟨some [2, 3, 4], [3, 5]⟩, ⟨some [7, 8, 9], [8, 10]⟩] }
 
 example : ∃ b tr, build exSiblingLeak = .ok (b, tr) ∧ structOk exSiblingLeak tr [] = false := by
+  refine ⟨_, _, rfl, ?_⟩; decide
+
+example : ∃ b tr, build exSiblingLeak = .ok (b, tr) ∧ Bridge.mainCleanB exSiblingLeak b = false := by
   refine ⟨_, _, rfl, ?_⟩; decide
 
 /- Non-vacuity of `build_valid`: kernel evaluation of `Prog.validG` (a mutual definition over a nested
